@@ -17,6 +17,7 @@ import shlex
 from pathlib import Path
 
 from vp import ref_argv as R
+from vp.ref_argv import as_text
 
 NPROC = int(os.environ.get("VP_NPROC", "16"))
 # development knob only (mutation runs on a loaded machine): VP_QUICK_N=<cases> shrinks the quick tier
@@ -30,6 +31,10 @@ SAFE = set("abcdefghijklmnopqrstuvwxyzABCDEFGHIJKLMNOPQRSTUVWXYZ0123456789_@%+=:
 
 # ------------------------------------------------------------------ generation
 def hostile(rng, maxlen=6, path=False):
+    if rng.random() < 0.12:
+        # quoted shapes: a word wrapped in (nested / escaped) quotes, as users paste them
+        inner = "".join(rng.choice(MILD[:4] + [" "]) for _ in range(rng.randint(1, 3)))
+        return rng.choice(["'{}'", '"{}"', "\"'{}'\"", "'\"{}\"'", "\\'{}\\'"]).format(inner)
     n = rng.randint(1, maxlen)
     # a third of the strings use only characters that no tokeniser treats specially but a shell would
     alpha = MILD if rng.random() < 0.35 else ALPHABET
@@ -380,27 +385,36 @@ def retokenised(exe, ref, append_args, observed=None):
     for c in ref["chunks"]:
         if not c["args"]:
             continue
+        templ = c.get("templated")
+        unit_strs = [" ".join(u["args"]) for u in c["units"]]
         if c.get("ellipsis"):
-            # one string for the whole list: per-element " argstr value" pieces joined by a blank
-            pieces = [" ".join(u["args"]) for u in c["units"]]
-            if c.get("templated"):
-                pieces = [p.strip() for p in pieces]
-            whole = _retok_str(" ".join(" " + p for p in pieces))
+            # one string for the whole list: per-element " <argstr> <value>" pieces joined by a blank
+            if templ:
+                whole_str = " ".join(" " + p.strip() for p in unit_strs)
+            else:
+                base = c["argstr"][:-3]
+                whole_str = " ".join(f" {base} {as_text(u['value'])}" for u in c["units"])
         else:
-            whole = _retok(c["args"])
-        per_unit = []
-        for u in c["units"]:
-            t = _retok(u["args"])
-            if t == "error":
-                per_unit = "error"
-                break
-            per_unit += t
-        # pydra also strips the formatted string of a templated argstr before splitting it
-        stripped = _retok_str(" ".join(c["args"]).strip()) if c.get("templated") else whole
-        alts = (whole, per_unit, stripped)
-        opts = [o for o in alts if o != "error"]
-        if len(opts) < len(alts):
-            can_fail = True
+            whole_str = " ".join(c["args"])
+
+        def per_unit(strip):
+            out = []
+            for p in unit_strs:
+                t = _retok_str(p.strip() if strip else p)
+                if t == "error":
+                    return "error"
+                out += t
+            return out
+        # (pydra strips the formatted string of a templated argstr before splitting it)
+        alts = [_retok_str(whole_str), per_unit(False)]
+        if templ:
+            alts += [_retok_str(whole_str.strip()), per_unit(True)]
+        opts = []
+        for o in alts:
+            if o == "error":
+                can_fail = True
+            elif o not in opts:
+                opts.append(o)
         cands.append(opts)
     example = list(exe)
     for o in cands:
@@ -431,7 +445,7 @@ def needs_more_than_space_quoting(arg, shell=False):
 def sh_split(cmdline, cwd):
     """argv a real POSIX shell gives to the command spelled by `cmdline` (run in an empty dir)."""
     import subprocess
-    p = subprocess.run(["/bin/sh", "-c", cmdline], cwd=cwd, capture_output=True, text=True, timeout=20,
+    p = subprocess.run(["/bin/sh", "-c", cmdline], cwd=cwd, capture_output=True, text=True, timeout=90, stdin=subprocess.DEVNULL,
                        env={"PATH": "/nonexistent", "LC_ALL": "C.UTF-8"})
     try:
         return json.loads(p.stdout.strip().splitlines()[-1])
